@@ -89,7 +89,7 @@ type inst struct {
 var shapes = []string{"file", "file", "dir", "dir-nonexec", "dir-extra-before", "dir-extra-after", "dir-nonexec-extra-after", "dir-nonexec-extra-before", "dir-subdir", "dir-subdir-before",
 	"dir-subdir-samename", "dir-symlink-extra", "dir-two", "dir-two-nonexec", "dir-no-candidate", "badmeta", "misnamed", "file-nonexec", "dir-badmeta", "file-via-symlink", "file-via-symlink", "misnamed-case",
 	"dir-samename-subdir", "dir-samename-subdir-holds-candidate", "dir-candidate-symlink", "dir-extra-group-exec", "dir-single-group-exec-only",
-	"dir-extra-notation-named-before", "badmeta-trailing-output", "dir-badmeta-second-document"}
+	"dir-extra-notation-named-before", "badmeta-trailing-output", "dir-badmeta-second-document", "misnamed-exe-suffix", "dir-misnamed-exe-suffix", "dir-dotfiles"}
 
 func main() {
 	r := lib.Start("C20", "exploration")
@@ -206,6 +206,19 @@ func runSequence(ctx context.Context, r *lib.Run, seq int, pending *[]func()) (b
 		defer os.RemoveAll(base)
 		root := filepath.Join(base, "plugins")
 		os.MkdirAll(root, 0o755)
+		// every third sequence: the plugin root also holds things that are no plugin directories (a file a file manager left
+		// behind, a README, a symbolic link) - they sort before, between and after the plugins and concern nobody
+		strays := map[string]finfo{}
+		if seq%3 == 0 {
+			os.WriteFile(filepath.Join(root, ".DS_Store"), []byte("Bud1"), 0o644)
+			os.WriteFile(filepath.Join(root, "README"), []byte("plugins live here"), 0o644)
+			os.WriteFile(filepath.Join(root, "cache.db"), []byte("c"), 0o600)
+			os.Symlink(base, filepath.Join(root, "zz-link"))
+			for k, v := range snap(root) {
+				strays[k] = v
+			}
+			q(func() { r.Event("sequences-over-a-plugin-root-with-stray-entries") })
+		}
 		mgr := plugin.NewCLIManager(dir.NewSysFS(root))
 		model := map[string]*inst{}
 		var trace []string
@@ -224,7 +237,13 @@ func runSequence(ctx context.Context, r *lib.Run, seq int, pending *[]func()) (b
 				// damage the installed plugin behind the manager's back: a malfunctioning executable, or a left-over
 				// directory without executable (e.g. an interrupted installation), plus a stray old file
 				exe := filepath.Join(root, name, "notation-"+name)
-				switch rng.Intn(3) {
+				switch rng.Intn(4) {
+				case 3:
+					// the installed plugin is present but cannot be STARTED any more: its interpreter is gone (the runtime it
+					// was written for was uninstalled). A malfunctioning plugin like any other.
+					in.damaged = "broken-exe"
+					os.WriteFile(exe, []byte("#!"+filepath.Join(base, "runtime-that-was-removed", "bin", "interp")+"\necho never\n"), 0o755)
+					q(func() { r.Event("damage-interpreter-gone") })
 				case 0:
 					in.damaged = "broken-exe"
 					os.WriteFile(exe, []byte("#!/bin/sh\nexit 1\n"), 0o755)
@@ -313,6 +332,18 @@ func runSequence(ctx context.Context, r *lib.Run, seq int, pending *[]func()) (b
 					cased := filepath.Join(src, "notation-"+strings.ToUpper(name[:1])+name[1:])
 					os.Rename(exe, cased)
 					path = cased
+				case "misnamed-exe-suffix", "dir-misnamed-exe-suffix":
+					// the file is notation-foo.exe (the name release archives give the Windows build), the process says it is
+					// "foo": on this platform the file name says "foo.exe" - another name
+					withExt := exe + ".exe"
+					os.Rename(exe, withExt)
+					if shape == "misnamed-exe-suffix" {
+						path = withExt
+					}
+				case "dir-dotfiles":
+					// dot-files are regular top-level files of the source like any other (settings the plugin reads, checksums)
+					addExtra(".settings", "mode=fast", 0o644)
+					addExtra(".checksums", "abc  notation-"+name, 0o600)
 				case "file-nonexec":
 					path, usable = exe, false
 				case "file-via-symlink":
@@ -380,7 +411,7 @@ func runSequence(ctx context.Context, r *lib.Run, seq int, pending *[]func()) (b
 					os.WriteFile(filepath.Join(src, "plugin.sh"), content, 0o755)
 					usable = false
 				}
-				metaOK := shape != "badmeta" && shape != "dir-badmeta" && shape != "misnamed" && shape != "misnamed-case" && shape != "badmeta-trailing-output" && shape != "dir-badmeta-second-document"
+				metaOK := shape != "badmeta" && shape != "dir-badmeta" && shape != "misnamed" && shape != "misnamed-case" && shape != "badmeta-trailing-output" && shape != "dir-badmeta-second-document" && shape != "misnamed-exe-suffix" && shape != "dir-misnamed-exe-suffix"
 				ex := model[name]
 				want, judged := usable && metaOK, true
 				why := "fresh install"
@@ -460,6 +491,9 @@ func runSequence(ctx context.Context, r *lib.Run, seq int, pending *[]func()) (b
 					// disk == model
 					got := snap(root)
 					wantDisk := map[string]finfo{}
+					for k, v := range strays {
+						wantDisk[k] = v
+					}
 					for nm, in := range model {
 						wantDisk[nm+"/"] = finfo{Mode: 0o755}
 						for f, fi := range in.files {
@@ -512,7 +546,7 @@ func runSequence(ctx context.Context, r *lib.Run, seq int, pending *[]func()) (b
 				viol("uninstall", fmt.Sprintf("Uninstall(%s) failed: %v", nm, err), nil)
 			}
 		}
-		if left := snap(root); len(left) != 0 {
+		if left := snap(root); snapStr(left) != snapStr(strays) {
 			viol("uninstall", "files left after uninstalling everything: "+snapStr(left), nil)
 		}
 		if seq < 3 {
